@@ -92,6 +92,17 @@ theorem c15_after_handling_victim_owns_nothing_and_cycle_gone (s : Sys) (v : Nat
   obtain ⟨b, r, _, he⟩ := hall v hv
   exact (hc.edges v b r he).1 rfl
 
+/-- **The hypothesis of the handling theorem holds at every point of every history.**  From a state in which every
+    listed context tracks what its operation owns (e.g. the empty system), after any sequence of start (of ids
+    that are not active) / acquire / release / complete / abort / kill, with or without trigger events, every
+    listed context still tracks what its operation owns and an unlisted operation owns nothing.  (This is also
+    what makes the premise of `c14_no_leak_on_any_exit` true for a fresh id in every reachable state.) -/
+theorem c15_tracking_invariant_along_histories (h : HSt) (ops : List HOp) (hk : ∀ op, Kinv h.sys op)
+    (hf : FreshStarts h ops) (op : Nat) :
+    Kinv (hrun h ops).sys op ∧
+    ((∀ c ∈ (hrun h ops).sys.active, c.id ≠ op) → ∀ r, ¬ Owns (hrun h ops).sys op r) :=
+  ⟨kinv_run ops hk hf op, (kinv_run ops hk hf op).unlisted⟩
+
 /-! ### The open finding: the recorded graph is not the reference graph -/
 
 -- FULL (false on the current tree):
@@ -173,11 +184,16 @@ example : TrigFree r0 rOps ∧ detectCycle (hrun r0 rOps).sys.edges = some [1, 2
 example : Good r0 := by
   refine c15_good_init _ ?_ rfl
   rintro o r ⟨l, hl, ho⟩
-  simp only [r0, Sys.register] at hl
+  simp only [Sys.register] at hl
   split at hl
   · cases hl; cases ho
   · split at hl
     · cases hl; cases ho
     · cases hl
+
+/-- the hypotheses of `c15_tracking_invariant_along_histories` are satisfiable, also on the witness history of
+    the open finding (which is not trigger-free) -/
+example : FreshStarts r0 rOps ∧ FreshStarts w0 wOps := by
+  constructor <;> simp only [FreshStarts, rOps, wOps] <;> decide
 
 end Operon.Coord
